@@ -1,0 +1,8 @@
+//go:build verif
+
+package trie
+
+// VerifTrie exposes the Trie wrapped by a SecureTrie to the C17 correspondence harness, which only
+// reads it (VerifWalk, VerifCacheGen): the in-memory node graph of the contract-storage trie that
+// chain/account.StorageCache drives. Nothing here writes to the trie or to the database.
+func (t *SecureTrie) VerifTrie() *Trie { return &t.trie }
